@@ -300,6 +300,9 @@ def gen_big_merge(rng, name):
     with two new hosts opens group 1), merged with files that add hosts to the same groups."""
     big = c01.gen_big_hosts(rng, "x", True, extra=3, hit="client_then_server")["streams"]
     src = c01.Src(rng, 2)
+    # captures of their own: streams of different ids never share a first packet source
+    src.next = {"m_" + c: v for c, v in src.next.items()}
+    src.caps = ["m_" + c for c in src.caps]
     tb = 1_600_000_100 * 10 ** 9
 
     def small(sid, ca, sa, t):
